@@ -27,14 +27,14 @@ PROP = "C24"
 
 NAMES = {"plain": "f.txt", "space": "a b.txt", "squote": "it's", "dquote": 'q"q', "dollar": "$x", "backtick": "`id`",
          "star": "s*r", "qmark": "q?", "bracket": "[b]", "dash": "-n", "unicode": "ü☃", "semicolon": "a;b", "amp": "a&b",
-         "backslash": "b\\c", "trailing-space": "t ", "hash": "#h", "tilde": "~t", "paren": "p(1)"}
+         "backslash": "b\\c", "trailing-space": "t ", "hash": "#h", "tilde": "~t", "paren": "p(1)", "newline": "n\nl"}
 CONTENTS = {"empty": "", "text": "hello", "trailing-newline": "hello\n", "padded": "  padded  ", "unicode": "é€ ✓\n",
             "multiline": "l1\nl2\n\nl4\n", "only-newlines": "\n\n", "cjk-long": "漢字テスト" * 40, "ascii-long": "0123456789" * 30}
 STATES = ["absent", "file", "dir", "symlink", "dangling"]
 NAME_GROUP = {"plain": "plain", "unicode": "unicode", "space": "space", "trailing-space": "space", "squote": "quote",
               "dquote": "quote", "dollar": "shell-meta", "backtick": "shell-meta", "semicolon": "shell-meta", "amp": "shell-meta",
               "backslash": "shell-meta", "hash": "shell-meta", "tilde": "shell-meta", "paren": "shell-meta", "star": "glob-meta",
-              "qmark": "glob-meta", "bracket": "glob-meta", "dash": "dash"}
+              "qmark": "glob-meta", "bracket": "glob-meta", "dash": "dash", "newline": "newline"}
 
 
 def worker_init():
@@ -234,7 +234,9 @@ def check_chunk(chunk):
                     suffix = (f"|content={item['content']}" if item.get("content") and op in ("read_text", "write_text") else "") + (
                         f"|buffer={item['bufsize']}" if item.get("bufsize") else "") + (
                         f"|pattern={item['arg']}" if op == "glob" else "") + (f"|top_down={item['arg']}" if op == "walk" else "")
-                    if op == "glob" and NAME_GROUP[ncls] in ("space", "quote", "shell-meta", "dash"):
+                    if op in ("glob", "walk") and ncls == "newline":
+                        key = f"C24|{op}|cause=line-based-parsing-of-command-output-breaks-on-a-newline-in-a-name"
+                    elif op == "glob" and NAME_GROUP[ncls] in ("space", "quote", "shell-meta", "dash"):
                         key = "C24|glob|cause=pattern-interpolated-unquoted-and-output-split-on-whitespace"
                     elif op == "glob" and NAME_GROUP[ncls] == "glob-meta":
                         key = "C24|glob|cause=unmatched-pattern-kept-literal-by-the-shell"
@@ -256,7 +258,7 @@ def check_chunk(chunk):
 
 def all_items(tier):
     quick = tier == "quick"
-    names = list(NAMES) if not quick else ["plain", "space", "squote", "dquote", "dollar", "star", "dash", "unicode", "semicolon", "bracket"]
+    names = list(NAMES) if not quick else ["plain", "space", "squote", "dquote", "dollar", "star", "dash", "unicode", "semicolon", "bracket", "backslash", "newline"]
     items = []
 
     def add(**kw):
